@@ -67,7 +67,9 @@ Cands(op) ==
       [] op = "AddGraphicsState" -> {[C EXCEPT !.id = p, !.name = "G1", !.x = MaxOf(DOMAIN doc.objs)] : p \in Pages_}
       [] op = "Save"         -> {[C EXCEPT !.fmt = f] : f \in {"table", "stream"}}
       [] op = "SaveLoad"     -> {[C EXCEPT !.fmt = "table"]}
-      [] OTHER               -> {C}      \* NewObjectId Prune Renumber Compress Decompress BuildOutline
+      \* renumber_objects() = start 1; a start inside the numbers in use; a start above all of them
+      [] op = "Renumber"     -> {[C EXCEPT !.x = st] : st \in {1, 2, doc.max_id + 1}}
+      [] OTHER               -> {C}      \* NewObjectId Prune Compress Decompress BuildOutline
 
 Do(op) == \E c \in Cands(op) : Step(c)
 
